@@ -3,6 +3,11 @@
 //! byte (every bit for MACs) of the corresponding field of the serialized RTPS message; the
 //! outcome classes of all these concrete decodes are counted in one trace event.
 //!
+//! Strengthening round: a key id is also overwritten with the id of ANOTHER existing key (classes
+//! keyid_sib / _ent / _rs / _peer / _own / _zero of CryptoAbs.tla); the concrete ids come from the
+//! rig's key inventory (`CryptoRig::key_ids`) and from the MAC entries on the wire.  A substitution
+//! that would not change the bytes (same key material at both levels) is not an alteration: skipped.
+//!
 //! modes:  replay --in specs.jsonl   (behaviours dumped by TLC from CryptoKeys.tla)
 //!         random --seed --runs      (systematic sweep level x kind x OA x key length x direction x
 //!                                    payload lengths 0..67, random registration orders / omissions /
@@ -12,7 +17,7 @@ use std::collections::HashMap;
 use std::panic::{catch_unwind, AssertUnwindSafe};
 
 use rand::{rngs::StdRng, seq::SliceRandom, Rng, SeedableRng};
-use rustdds::verif::crypto_rig::{CryptoRig, Encoded, LocalCfg, Outcome};
+use rustdds::verif::crypto_rig::{CryptoRig, Encoded, KeyIds, LocalCfg, Outcome};
 use serde::{Deserialize, Serialize};
 use serde_json::{json, Value};
 
@@ -196,8 +201,30 @@ fn layout(lvl: u8, frame: u8, e: &Encoded, gcm: bool) -> Layout {
     l
 }
 
+/// key ids of other existing keys, as candidates to overwrite the header key id with
+#[derive(Debug, Default, Clone)]
+struct KidCtx {
+    sib: Option<[u8; 4]>,  // producer's key of the sibling endpoint level
+    ent: Option<[u8; 4]>,  // producer's key of the other entity level
+    rs: Option<[u8; 4]>,   // receiver-specific key the producer generated for the receiver at hand
+    peer: Option<[u8; 4]>, // same-level key of a different sender
+    own: Option<[u8; 4]>,  // same-level key of the receiver itself
+}
+
+fn slot_kid(k: &KeyIds, lvl: u8) -> Option<[u8; 4]> {
+    match lvl {
+        0 => k.pay,
+        1 => k.sub,
+        _ => k.part,
+    }
+}
+
+fn hex4(b: &[u8]) -> String {
+    b.iter().map(|x| format!("{x:02x}")).collect()
+}
+
 /// the concrete alterations that refine tamper class t: list of altered wires (+ a label)
-fn alterations(t: &str, e: &Encoded, l: &Layout, mine: Option<usize>, alt: Option<&Encoded>) -> Vec<(Vec<u8>, (usize, u8))> {
+fn alterations(t: &str, e: &Encoded, l: &Layout, mine: Option<usize>, alt: Option<&Encoded>, kids: &KidCtx) -> Vec<(Vec<u8>, (usize, u8))> {
     let w = &e.wire;
     let mut out = vec![];
     let bytes = |rg: (usize, usize), masks: &[u8], out: &mut Vec<(Vec<u8>, (usize, u8))>| {
@@ -225,6 +252,24 @@ fn alterations(t: &str, e: &Encoded, l: &Layout, mine: Option<usize>, alt: Optio
             }
         }
         "keyid" => bytes(l.keyid, &[0x01, 0x80, 0xFF], &mut out),
+        "keyid_sib" | "keyid_ent" | "keyid_rs" | "keyid_peer" | "keyid_own" | "keyid_zero" => {
+            let v = match t {
+                "keyid_sib" => kids.sib,
+                "keyid_ent" => kids.ent,
+                "keyid_rs" => kids.rs,
+                "keyid_peer" => kids.peer,
+                "keyid_own" => kids.own,
+                _ => Some([0u8; 4]),
+            };
+            if let Some(v) = v {
+                // only an id that differs from the one in the header is an alteration
+                if l.keyid.1 == l.keyid.0 + 4 && w[l.keyid.0..l.keyid.1] != v {
+                    let mut x = w.clone();
+                    x[l.keyid.0..l.keyid.1].copy_from_slice(&v);
+                    out.push((x, (l.keyid.0, 0x4B)));
+                }
+            }
+        }
         "session" => bytes(l.session, &[0x01, 0x80, 0xFF], &mut out),
         "iv" => bytes(l.iv, &[0x01, 0x80, 0xFF], &mut out),
         "body" => bytes(l.body, &[0x01, 0x80, 0xFF], &mut out),
@@ -241,6 +286,21 @@ fn alterations(t: &str, e: &Encoded, l: &Layout, mine: Option<usize>, alt: Optio
             if let Some(i) = mine {
                 let s = l.entries[i];
                 bytes((s, s + 4), &[0x01, 0x80, 0xFF], &mut out);
+            }
+        }
+        "rkid_swap" => {
+            // my entry and another receiver's entry exchange their key ids
+            if let Some(i) = mine {
+                let s = l.entries[i];
+                for (j, o) in l.entries.iter().enumerate() {
+                    if j != i && w[s..s + 4] != w[*o..*o + 4] {
+                        let mut x = w.clone();
+                        let (a, b) = (w[s..s + 4].to_vec(), w[*o..*o + 4].to_vec());
+                        x[s..s + 4].copy_from_slice(&b);
+                        x[*o..*o + 4].copy_from_slice(&a);
+                        out.push((x, (s, j as u8)));
+                    }
+                }
             }
         }
         "drop_mine" => {
@@ -380,7 +440,31 @@ pub fn run_one(k: usize, spec: &RunSpec, ev: &mut Vec<Value>) -> Vec<Vec<u8>> {
                 } else {
                     None
                 };
-                let alts = alterations(&a.t, &ct.enc, &l, mine, alt.as_ref());
+                // the other key ids that exist in the system (inventory of the rig + MAC entries on the wire)
+                let mut kids = KidCtx::default();
+                if a.t.starts_with("keyid_") && l.ok {
+                    let kp = rig.key_ids(ct.p);
+                    kids.sib = match lvl {
+                        0 => kp.sub,
+                        1 => kp.pay,
+                        _ => None,
+                    };
+                    kids.ent = if lvl == 2 { kp.sub } else { kp.part };
+                    kids.rs = mine.map(|i| {
+                        let s = l.entries[i];
+                        [ct.enc.wire[s], ct.enc.wire[s + 1], ct.enc.wire[s + 2], ct.enc.wire[s + 3]]
+                    });
+                    let peer = if a.s != ct.p { Some(a.s) } else { spec.senders.iter().copied().find(|x| *x != ct.p) };
+                    kids.peer = peer.and_then(|q| slot_kid(&rig.key_ids(q), lvl));
+                    kids.own = slot_kid(&rig.key_ids(a.r), lvl);
+                }
+                let alts = alterations(&a.t, &ct.enc, &l, mine, alt.as_ref(), &kids);
+                let kid_dbg = if a.t.starts_with("keyid_") && l.ok && l.keyid.1 <= ct.enc.wire.len() {
+                    format!(" kid:{}->{}", hex4(&ct.enc.wire[l.keyid.0..l.keyid.1]),
+                            alts.first().map(|(w, _)| hex4(&w[l.keyid.0..l.keyid.1])).unwrap_or_else(|| "n/a".into()))
+                } else {
+                    String::new()
+                };
                 let (mut same, mut other, mut nodata, mut panic) = (0, 0, 0, 0);
                 let mut bad: Vec<Value> = vec![];
                 let mut why: HashMap<String, usize> = HashMap::new();
@@ -407,7 +491,7 @@ pub fn run_one(k: usize, spec: &RunSpec, ev: &mut Vec<Value>) -> Vec<Vec<u8>> {
                 }
                 ev.push(json!({"ev":"Decode","r":a.r,"s":a.s,"c":a.c,"t":a.t,"n":alts.len(),"same":same,"other":other,
                                "nodata":nodata,"panic":panic,"bad":bad,
-                               "dbg":format!("{:?} model:{}", { let mut w: Vec<_> = why.into_iter().collect(); w.sort(); w }, a.expect.clone().unwrap_or_default())}));
+                               "dbg":format!("{:?} model:{}{}", { let mut w: Vec<_> = why.into_iter().collect(); w.sort(); w }, a.expect.clone().unwrap_or_default(), kid_dbg)}));
             }
             _ => {
                 ev.push(json!({"ev":"Skip","why":"unknown action"}));
@@ -525,7 +609,8 @@ pub fn random_specs(seed: u64, runs: usize, _events: usize) -> Vec<RunSpec> {
         };
         acts.push(Act { c: 1, p, to: to.clone(), frame: frame.to_string(), al: len % 4 == 0, len: Some(len), ..act("Encode") });
         // decode: everybody else, for every claimed sender, every tamper class
-        let mut classes = vec!["none", "kind", "keyid", "session", "iv", "body", "cmac", "swap_hdr"];
+        let mut classes = vec!["none", "kind", "keyid", "session", "iv", "body", "cmac", "swap_hdr",
+                               "keyid_sib", "keyid_ent", "keyid_peer", "keyid_own", "keyid_zero"];
         if lvl == "payload" {
             classes.push("rcount");
         }
@@ -533,7 +618,7 @@ pub fn random_specs(seed: u64, runs: usize, _events: usize) -> Vec<RunSpec> {
             classes.push("hdr");
         }
         if oa && lvl != "payload" {
-            classes.extend(["rmac_mine", "rkid_mine", "drop_mine"]);
+            classes.extend(["rmac_mine", "rkid_mine", "drop_mine", "rkid_swap", "keyid_rs"]);
         }
         for r in 1..=3usize {
             if r == p {
